@@ -34,7 +34,7 @@ def run(rep, tier):
     import symex
     rb = rep.rule("R14.b", "assemble_internal evaluated per documented mnemonic and operand shape (0-4 operands): every path returns Ok or Err", floor=92)
     F = cx.F
-    if asmmodel.internal_entry(F) is None:
+    if asmmodel.internal_entry(F) is None and not (F.fns.get("assembler::assemble") or {}).get("thir"):
         rep.ob(rb, "entry", False, "the function turning parsed instructions into Insn values", found="not found")
     else:
         ev = symex.Evaluator(F)
